@@ -1,0 +1,21 @@
+//! Verification hooks (compiled only with `--cfg nervosnetwork_ckb_light_client_verif`).
+//!
+//! A process-global registry of callbacks which a verification harness can install; without an
+//! installed callback every hook is a no-op.
+
+use std::cell::RefCell;
+
+thread_local! {
+    static RANDOM_UNIT: RefCell<Option<Box<dyn FnMut() -> f64>>> = RefCell::new(None);
+}
+
+/// Installs (or removes) a deterministic source for the random choices of the current thread;
+/// the callback returns numbers in `[0, 1)`.
+pub(crate) fn set_random_unit(source: Option<Box<dyn FnMut() -> f64>>) {
+    RANDOM_UNIT.with(|cell| *cell.borrow_mut() = source);
+}
+
+/// The next number in `[0, 1)` of the installed source, if any.
+pub(crate) fn random_unit() -> Option<f64> {
+    RANDOM_UNIT.with(|cell| cell.borrow_mut().as_mut().map(|source| source()))
+}
